@@ -78,9 +78,10 @@ def run(r: core.Run):
                 if k >= 3:
                     break
         # the hooks model (Props/C18: hooks_keep_no_state, routing_wf) against the real hooks: generated SELECTs, their
-        # tokens through model parser + model hooks, the pattern clauses against those the real hooks built
+        # tokens through model parser + model hooks; pattern clauses, projections, input graphs, GROUP BY, ORDER BY,
+        # LIMIT and global time bounds against what the real hooks built
         hq = os.path.join(d, "C18-hooks")
-        core.run_bwh(["query", "-mode", "optional", "-n", "60" if r.tier == "quick" else "1500", "-per", "8", "-ops", hq + ".ops", "-impl", hq + ".impl"],
+        core.run_bwh(["query", "-mode", "optional+plain+group+having+order+limit", "-n", "60" if r.tier == "quick" else "1500", "-per", "8", "-ops", hq + ".ops", "-impl", hq + ".impl"],
                      extra_env={"VERIF_SEED": str(r.seed)}, timeout=3000)
         core.run_driver(["hooks"], stdin_path=hq + ".ops", out_path=hq + ".hooks")
         hops, hks = core.read_lines(hq + ".ops"), core.read_lines(hq + ".hooks")
@@ -90,8 +91,8 @@ def run(r: core.Run):
         if hbad and not mism:
             o, a = hbad[0]
             text = bytes.fromhex(o.split("text=")[1].split()[0]).decode("utf-8", "replace")
-            tie = core.TieBroken(f"hooks correspondence: the model of the WHERE-clause hooks and the real hooks build different pattern "
-                                 f"clauses for {len(hbad)} statements", f"first: {text!r}: {a[:500]}")
+            tie = core.TieBroken(f"hooks correspondence: the model of the SELECT hooks and the real hooks build different "
+                                 f"statements for {len(hbad)} statements", f"first: {text!r}: {a[:500]}")
         if mism:
             o, a, m = mism[0]
             tie = core.TieBroken(f"parse correspondence: model and implementation disagree on {len(mism)} token sequences",
